@@ -9,6 +9,7 @@ MUT = [
  ("C01_no_rounding_term", ["C01", "C02", "C03"], M, "auto intercept = (intercept_n + rounding_term) / intercept_d + rectangle[1].y;", "auto intercept = intercept_n / intercept_d + rectangle[1].y;"),
  ("C02_no_gap_point", ["C02"], M, "                if (in(i) + 1 < in(i + 1))\n                    add_point(in(i) + 1, i);", "                if (false)\n                    add_point(in(i) + 1, i);"),
  ("C02_no_next_intercept_cap", ["C02", "C01"], P, "        auto pos = std::min<size_t>((*it)(k), std::next(it)->intercept);\n        auto lo = PGM_SUB_EPS(pos, Epsilon);", "        auto pos = (*it)(k);\n        auto lo = PGM_SUB_EPS(pos, Epsilon);"),
+ ("C02_omp_no_reduction", ["C02"], M, "#pragma omp parallel for reduction(+:c) num_threads(parallelism)", "#pragma omp parallel for num_threads(parallelism)"),
  ("C03_hull_pop_strict", ["C03", "C04"], M, "cross(upper[end - 2], upper[end - 1], p1) <= 0; --end)", "cross(upper[end - 2], upper[end - 1], p1) < 0; --end)"),
  ("C03_no_band_clamp", ["C03", "C04"], M, "Point p2{x, y <= min_y + epsilon ? min_y : y - epsilon};", "Point p2{x, y - epsilon};"),
  ("C04_cut_every_1000", ["C04"], M, "        if (outside_line1 || outside_line2) {", "        if (outside_line1 || outside_line2 || points_in_hull >= 1000) {"),
